@@ -1,0 +1,45 @@
+//go:build verif
+
+package router
+
+import (
+	"context"
+
+	"github.com/IrineSistiana/mosproxy/internal/dnsmsg"
+	"github.com/IrineSistiana/mosproxy/internal/mlog"
+)
+
+// Add-only hook for the C17 correspondence check (kind upcfg): the upstream that the REAL
+// (*router).initUpstream builds from one UpstreamConfig entry, on a router that has only what
+// initUpstream reads (logger, metrics registry, the upstream map).
+
+type VerifC17Upstream struct{ w *upstreamWrapper }
+
+// VerifC17InitUpstream runs (*router).initUpstream(cfg) and returns the upstream it registered.
+func VerifC17InitUpstream(cfg *UpstreamConfig) (*VerifC17Upstream, error) {
+	r := &router{
+		logger:     mlog.Nop(),
+		metricsReg: newMetricsReg(),
+		upstreams:  make(map[string]*upstreamWrapper),
+	}
+	if err := r.initUpstream(cfg); err != nil {
+		return nil, err
+	}
+	return &VerifC17Upstream{w: r.upstreams[cfg.Tag]}, nil
+}
+
+// Exchange is upstreamWrapper.Exchange; it reports the number of answer records of the reply.
+func (v *VerifC17Upstream) Exchange(ctx context.Context, q []byte) (answers int, err error) {
+	m, err := v.w.Exchange(ctx, q)
+	if err != nil {
+		return 0, err
+	}
+	if m == nil {
+		return 0, nil
+	}
+	n := len(m.Answers)
+	dnsmsg.ReleaseMsg(m)
+	return n, nil
+}
+
+func (v *VerifC17Upstream) Close() error { return v.w.Close() }
